@@ -24,6 +24,7 @@ def extra(tier, rng):
         res.append({"cfg": {"kinds": {}}, "profile": "tree", "tops": [["value", coregen.balanced_tree(d, f)]]})
     for n in (2, 5, 12, 30):
         res.append({"cfg": {"kinds": {}}, "profile": "chain", "tops": [["call", coregen.dependent_chain(n)]]})
+    res += [{"special": "longloop", "n": n} for n in ((30, 2500) if tier == "quick" else (30, 2500, 20000))]
     res.append({"cfg": {"kinds": {}}, "family": ["many-yields", 1200 if tier == "quick" else 3000]})
     res.append({"cfg": {"kinds": {}}, "family": ["wide", 1100 if tier == "quick" else 2600]})
     return res
